@@ -59,6 +59,9 @@ def run(tier: str) -> int:
             {"Family": "stack", "MaxLen": 3, "Starts": "zero", "Sample": 200, "workers": 3, "opt_cfgs": small},
             {"Family": "stack1", "MaxLen": 3, "Starts": "zero", "Sample": 400, "workers": 3, "opt_cfgs": small, "style": "min"},
             {"Family": "core3", "MaxLen": 3, "Starts": "zero", "Sample": 150, "workers": 3, "opt_cfgs": small},
+            {"Family": "tags", "MaxLen": 3, "Starts": "zero", "Sample": 200, "workers": 3, "opt_cfgs": small},
+            {"Family": "ci", "MaxLen": 3, "Starts": "zero", "Sample": 250, "workers": 3, "opt_cfgs": small, "style": "min"},
+            {"Family": "trivfx", "MaxLen": 3, "Starts": "zero", "Sample": 150, "workers": 3, "opt_cfgs": small},
         ]
     else:
         fams = [
@@ -70,6 +73,8 @@ def run(tier: str) -> int:
             {"Family": "stack", "MaxLen": 4, "Starts": "zero", "Sample": 0, "workers": 8, "opt_cfgs": small},
             {"Family": "core3", "MaxLen": 3, "Starts": "zero", "Sample": 3000, "workers": 8, "opt_cfgs": small},
             {"Family": "tags", "MaxLen": 3, "Starts": "zero", "Sample": 0, "workers": 8, "opt_cfgs": small},
+            {"Family": "ci", "MaxLen": 3, "Starts": "zero", "Sample": 0, "workers": 8, "opt_cfgs": small, "style": "min"},
+            {"Family": "trivfx", "MaxLen": 3, "Starts": "zero", "Sample": 0, "workers": 8, "opt_cfgs": small},
         ]
     for f in fams:
         if f["Family"].startswith("opt"):
